@@ -494,6 +494,10 @@ def reconfigure(
     If *key* is provided, triples are sorted according to the key.
     """
     p = copy.deepcopy(g)
+    if top is None:
+        # the implicit top is the source of the first triple, so it must
+        # be resolved before the triples are reordered
+        top = g.top
     for epilist in p.epidata.values():
         epilist[:] = [
             epi for epi in epilist if not isinstance(epi, LayoutMarker)
